@@ -1,4 +1,4 @@
-From RS Require Import Base BaseFacts Network Tour Transition Schedule SchedInv.
+From RS Require Import SchedPeel Base BaseFacts Network Tour Transition Schedule SchedInv.
 (* SchedCostsFacts.v — proof of [stmt_reachable_costs] (SchedInv.v): for every reachable schedule the cached
    [s_costs] is the sum of the cached tour costs plus the staff term and the keys of [s_tours] are duplicate-free.
    The stated invariant is strengthened to [Inv] (below): keys of [s_tours] are [Veh i] with [i < s_counter],
@@ -511,7 +511,7 @@ Lemma update_tours_ok s forms usage dids uns p ntp r ntr moved
   TC Kst tours2 costs2 /\ KeysLt (s_counter s) tours2 /\ RealKeys vehicles1 /\ DummyKeys dummies2 /\
   IdsOK (s_counter s) ids1.
 Proof.
-  intros I H. unfold update_tours in H.
+  intros I H. apply update_tours_peel in H. unfold update_tours_prefix in H.
   monp H. mon H. monp H. mon H. monp H. inversion H; subst; clear H.
   destruct I as [T KL RK DK IO].
   assert (Q : TC Kst l3 z /\ KeysLt (s_counter s) l3 /\ RealKeys vehicles1 /\ DummyKeys l1 /\ IdsOK (s_counter s) ids1).
